@@ -195,7 +195,7 @@ def _call_name(c):
     return f.attr if isinstance(f, ast.Attribute) else (f.id if isinstance(f, ast.Name) else None)
 
 
-def inline_temporaries(fnode, max_rounds=80):
+def inline_temporaries(fnode, max_rounds=80, keep=None):
     """Deep copy of `fnode` in which every local that
       * is stored exactly once in the function (plain `name = expr`, not a
         parameter, loop target, with-target, augmented or deleted),
@@ -208,12 +208,12 @@ def inline_temporaries(fnode, max_rounds=80):
     import copy
     f = copy.deepcopy(fnode)
     for _ in range(max_rounds):
-        if not _inline_once(f):
+        if not _inline_once(f, keep):
             break
     return f
 
 
-def _inline_once(f):
+def _inline_once(f, keep=None):
     import copy
     params = {a.arg for a in f.args.args + f.args.kwonlyargs + f.args.posonlyargs}
     if f.args.vararg:
@@ -259,6 +259,8 @@ def _inline_once(f):
             if name in params or name in nested or len(stores.get(name, [])) != 1:
                 continue
             if any(isinstance(x, (ast.Yield, ast.YieldFrom, ast.Await, ast.NamedExpr, ast.Lambda)) for x in ast.walk(n.value)):
+                continue
+            if keep is not None and keep(n):
                 continue
             cands[name] = n
     if not cands:
